@@ -489,6 +489,9 @@ func (c *V2) Do(op Op) (out Outcome) {
 					KeySchema:  v2KeySchema(ch.Create.Hash, ch.Create.Range),
 					Projection: v2Projection(*ch.Create), ProvisionedThroughput: v2Throughput()}
 			}
+			if ch.DeleteUnnamed {
+				u.Delete = &v2types.DeleteGlobalSecondaryIndexAction{}
+			}
 			if ch.Delete != "" {
 				u.Delete = &v2types.DeleteGlobalSecondaryIndexAction{IndexName: aws.String(ch.Delete)}
 			}
